@@ -26,12 +26,18 @@ pub const DEF: PropDef = PropDef {
 
 pub const K0: u64 = 128 * 1024;
 // Calibration on the unchanged tree (after fixes D20, D21, D25; seeds 0..2, 1.9e5 cases each,
-// cases touching zero-length fields excluded): max result/(buf+templates) = 661 (a
-// one-byte record costs one B-tree leaf of ~650 bytes), max alloc/result = 27 only where
-// a packet is decoded and then discarded as an error, i.e. allocation proportional to the
-// buffer at the same per-byte rate as the result would have had. K1 = K3 = 4 x 661
-// rounded, K2 = 4 x the typical alloc/result of 3-4.
-pub const K1: u64 = 2700;
+// cases touching zero-length fields excluded):
+//  * S2: max result/(buf+templates) observed = 661 - a one-byte record costs one B-tree leaf
+//    of ~650 bytes (V9: one map per record, IPFIX: one map per field). K3 = 4 x 661 rounded.
+//  * S1: max (alloc - K0 - K2*result)/buf observed = 44. The modelled worst case that is still
+//    "a fixed multiple" is a V9 packet that decodes ~65 000 one-byte records and is then
+//    discarded because a later flowset fails: the same ~660-720 bytes per input byte as the
+//    result would have had, with an empty result (family F9 below exercises exactly this).
+//    K1 = 1200 covers that model with a 1.7x margin and is 27x the observed maximum; the
+//    first calibration used K1 = 2700, which let a seeded 2540x amplification (64 KiB
+//    pre-allocation per 26-byte IPFIX message, seeded/C15-a) pass - see DESIGN 9.5.
+//  * K2: alloc/result is 2-4 for kept results (vector doubling, intermediate strings); 16 = 4x.
+pub const K1: u64 = 1200;
 pub const K2: u64 = 16;
 pub const K3: u64 = 2700;
 
@@ -347,6 +353,65 @@ pub fn family(name: &str, n: usize) -> Option<(Vec<Vec<u8>>, Vec<u8>)> {
             f.push((5, 1));
             (vec![ipfix_msg(&tpl_set(Proto::Ipfix, 500, &plain(f)))], ipfix_msg(&data_set(500, n, 1)))
         }
+        // chains of minimal packets whose count fields announce far more than is present
+        "F1c-chain-ipfix-opttpl-scope-overannounced" => {
+            let mut r = W::default();
+            r.u16(256).u16(0).u16(0xffff);
+            let mut st = W::default();
+            enc_set(&mut st, 3, &r.0, 0);
+            (vec![], ipfix_msg(&st.0).repeat(n))
+        }
+        "F1c-chain-ipfix-opttpl-fields-overannounced" => {
+            let mut r = W::default();
+            r.u16(256).u16(0xffff).u16(1);
+            let mut st = W::default();
+            enc_set(&mut st, 3, &r.0, 0);
+            (vec![], ipfix_msg(&st.0).repeat(n))
+        }
+        "F1c-chain-ipfix-tpl-fields-overannounced" => {
+            let mut r = W::default();
+            r.u16(256).u16(0xffff);
+            let mut st = W::default();
+            enc_set(&mut st, 2, &r.0, 0);
+            (vec![], ipfix_msg(&st.0).repeat(n))
+        }
+        "F1c-chain-v9-tpl-fields-overannounced" => {
+            let mut r = W::default();
+            r.u16(256).u16(0xffff);
+            let mut st = W::default();
+            enc_set(&mut st, 0, &r.0, 0);
+            (vec![], v9_pkt(1, &st.0).repeat(n))
+        }
+        "F1c-chain-v9-opttpl-lengths-overannounced" => {
+            let mut r = W::default();
+            r.u16(256).u16(0xfffc).u16(0xfffc);
+            let mut st = W::default();
+            enc_set(&mut st, 1, &r.0, 0);
+            (vec![], v9_pkt(1, &st.0).repeat(n))
+        }
+        "F1c-v9-flowsets-tpl-fields-overannounced" => {
+            // one packet, n template flowsets each announcing 65535 fields
+            let mut r = W::default();
+            r.u16(256).u16(0xffff);
+            let mut st = W::default();
+            enc_set(&mut st, 0, &r.0, 0);
+            (vec![], v9_pkt(0xffff, &st.0.repeat(n)))
+        }
+        // decode n one-byte records, then fail the packet on a flowset without template:
+        // all work is discarded (the legitimate worst case for S1's K1)
+        "F9-v9-decode-then-discard" => {
+            let mut b = data_set(300, n, 0x41);
+            b.extend(data_set(9999, 4, 1));
+            (vec![v9_pkt(1, &tpl_set(Proto::V9, 300, &plain(vec![(5, 1)])))], v9_pkt(2, &b))
+        }
+        "F9-ipfix-decode-then-truncated-varlen" => {
+            // n one-byte records of a variable-length template, the last prefix overruns
+            let mut body = vec![0u8; n];
+            body.push(200);
+            let mut st = W::default();
+            enc_set(&mut st, 301, &body, 0);
+            (vec![ipfix_msg(&tpl_set(Proto::Ipfix, 301, &plain(vec![(82, VARLEN)])))], ipfix_msg(&st.0))
+        }
         _ => return None,
     })
 }
@@ -375,6 +440,14 @@ pub const FAMILIES: &[(&str, usize, usize)] = &[
     ("F5-v9-n-templates", 8, 8000),
     ("F7-v9-failing-records", 1, 65000),
     ("F7-v9-failing-records-wide-tpl", 1, 65000),
+    ("F1c-chain-ipfix-opttpl-scope-overannounced", 26, 2520),
+    ("F1c-chain-ipfix-opttpl-fields-overannounced", 26, 2520),
+    ("F1c-chain-ipfix-tpl-fields-overannounced", 24, 2730),
+    ("F1c-chain-v9-tpl-fields-overannounced", 28, 2340),
+    ("F1c-chain-v9-opttpl-lengths-overannounced", 30, 2184),
+    ("F1c-v9-flowsets-tpl-fields-overannounced", 8, 8000),
+    ("F9-v9-decode-then-discard", 1, 65000),
+    ("F9-ipfix-decode-then-truncated-varlen", 1, 65000),
     ("F6-v9-zero-length-fields", 1, 1000),
     ("F6-ipfix-zero-length-fields", 1, 1000),
 ];
